@@ -133,6 +133,7 @@ package spine
 //@ define onEntityAddr(cf, re) = deepEqual(cf.Address().Device, re.Address().Device) && deepEqual(cf.Address().Entity, re.Address().Entity)
 
 //@ func (*BindingManager).RemoveBindingsForEntity safety-root
+//@   defines[pen,pemgr,peent] pen == old(pen) + 1 && pemgr == store(old(pemgr), old(pen), asIface(c, api.BindingManagerInterface)) && peent == store(old(peent), old(pen), remoteEntity)
 //@   assumes c != nil && c.localDevice != nil
 //@   requires c != nil
 //@   assumes bindInv(c)
@@ -143,7 +144,7 @@ package spine
 //@   ensures[C10,C06,C09] nil-noop: remoteEntity == nil ==> c.bindingEntries == L0 && evn == old(evn)
 //@   ensures[C10,C06,C09] view: remoteEntity != nil ==> len(c.bindingEntries) == Fcnt(len(L0)) && forall j int :: 0 <= j && j < len(L0) && kept(L0[j]) ==> c.bindingEntries[Fcnt(j)] == old(L0[j])
 //@   ensures[C10,C06,C09] events: remoteEntity != nil ==> evn == old(evn) + (len(L0) - Fcnt(len(L0)))
-//@   modifies c.bindingEntries, @PUBLISH, held
+//@   modifies c.bindingEntries, @PUBLISH, held, pen, pemgr, peent
 //@   loop 0 invariant acc: newBindingEntries == nil || freshPre(newBindingEntries)
 //@   loop 0 invariant frame: unchangedPre(*api.BindingEntry) && unchangedPre(api.BindingEntry) && unchangedPre(model.FeatureAddressType) && unchangedPre(model.EntityAddressType) && unchangedPre(api.EventPayload)
 //@   loop 0 invariant nn: old(bindInv(c)) ==> forall j int :: 0 <= j && j < len(newBindingEntries) ==> newBindingEntries[j] != nil && newBindingEntries[j].ClientFeature != nil && newBindingEntries[j].ServerFeature != nil
@@ -151,6 +152,26 @@ package spine
 //@   loop 0 invariant elems: forall j int :: 0 <= j && j < $k && kept($s[j]) ==> newBindingEntries[Fcnt(j)] == $s[j]
 //@   loop 0 invariant events: evn == pre(evn) + ($k - Fcnt($k))
 //@   loop 0 invariant[C09] locked: held(c.mux)
+
+// teardown of a whole peer in a registry (C10, C09/C08): one per-entity cleanup for each entity the device currently has, in
+// order, and nothing for a nil device (what each per-entity cleanup does: above)
+//@ func (*BindingManager).RemoveBindingsForDevice
+//@   requires c != nil
+//@   let E = remoteDevice.Entities()
+//@   ensures[C10,C09] nil-noop: remoteDevice == nil ==> pen == old(pen) && c.bindingEntries == old(c.bindingEntries) && evn == old(evn)
+//@   ensures[C10,C09] each-entity-once: remoteDevice != nil ==> pen == old(pen) + len(E) && forall j int :: 0 <= j && j < len(E) ==> peent[old(pen) + j] == old(E[j]) && pemgr[old(pen) + j] == asIface(c, api.BindingManagerInterface)
+//@   modifies cells([]*api.BindingEntry), @PUBLISH, held, pen, pemgr, peent
+//@   loop 0 invariant count: pen == pre(pen) + $k && $s == E
+//@   loop 0 invariant each: forall j int :: 0 <= j && j < $k ==> peent[pre(pen) + j] == $s[j] && pemgr[pre(pen) + j] == asIface(c, api.BindingManagerInterface)
+
+//@ func (*SubscriptionManager).RemoveSubscriptionsForDevice
+//@   requires c != nil
+//@   let E = remoteDevice.Entities()
+//@   ensures[C10,C08] nil-noop: remoteDevice == nil ==> pen == old(pen) && c.subscriptionEntries == old(c.subscriptionEntries) && evn == old(evn)
+//@   ensures[C10,C08] each-entity-once: remoteDevice != nil ==> pen == old(pen) + len(E) && forall j int :: 0 <= j && j < len(E) ==> peent[old(pen) + j] == old(E[j]) && pemgr[old(pen) + j] == asIface(c, api.SubscriptionManagerInterface)
+//@   modifies cells([]*api.SubscriptionEntry), @PUBLISH, held, pen, pemgr, peent
+//@   loop 0 invariant count: pen == pre(pen) + $k && $s == E
+//@   loop 0 invariant each: forall j int :: 0 <= j && j < $k ==> peent[pre(pen) + j] == $s[j] && pemgr[pre(pen) + j] == asIface(c, api.SubscriptionManagerInterface)
 
 // ---------------------------------------------------------------------------------------
 // subscription registry (C08, C10)
@@ -209,6 +230,7 @@ package spine
 //@   loop 0 invariant elems: forall j int :: 0 <= j && j < $k && kept($s[j]) ==> newSubscriptionEntries[Fcnt(j)] == $s[j]
 
 //@ func (*SubscriptionManager).RemoveSubscriptionsForEntity safety-root
+//@   defines[pen,pemgr,peent] pen == old(pen) + 1 && pemgr == store(old(pemgr), old(pen), asIface(c, api.SubscriptionManagerInterface)) && peent == store(old(peent), old(pen), remoteEntity)
 //@   assumes c != nil && c.localDevice != nil
 //@   requires c != nil
 //@   assumes subInv(c)
@@ -219,7 +241,7 @@ package spine
 //@   ensures[C10,C06,C08] nil-noop: remoteEntity == nil ==> c.subscriptionEntries == L0 && evn == old(evn)
 //@   ensures[C10,C06,C08] view: remoteEntity != nil ==> len(c.subscriptionEntries) == Fcnt(len(L0)) && forall j int :: 0 <= j && j < len(L0) && kept(L0[j]) ==> c.subscriptionEntries[Fcnt(j)] == old(L0[j])
 //@   ensures[C10,C06,C08] events: remoteEntity != nil ==> evn == old(evn) + (len(L0) - Fcnt(len(L0)))
-//@   modifies c.subscriptionEntries, @PUBLISH, held
+//@   modifies c.subscriptionEntries, @PUBLISH, held, pen, pemgr, peent
 //@   loop 0 invariant acc: newSubscriptionEntries == nil || freshPre(newSubscriptionEntries)
 //@   loop 0 invariant frame: unchangedPre(*api.SubscriptionEntry) && unchangedPre(api.SubscriptionEntry) && unchangedPre(model.FeatureAddressType) && unchangedPre(model.EntityAddressType) && unchangedPre(api.EventPayload)
 //@   loop 0 invariant nn: old(subInv(c)) ==> forall j int :: 0 <= j && j < len(newSubscriptionEntries) ==> newSubscriptionEntries[j] != nil && newSubscriptionEntries[j].ClientFeature != nil && newSubscriptionEntries[j].ServerFeature != nil
